@@ -315,6 +315,32 @@ pub fn decode_headers() -> Vec<String> {
             }
         }
     }
+    // the values at which the encoding grows by a byte (127, 16383), canonical and written one byte too long: as remaining
+    // length of a whole PUBLISH, and as the length of its property block
+    for l in [127usize, 128, 16383, 16384] {
+        let mut body = lp(b"t");
+        body.push(0);
+        body.extend(std::iter::repeat(b'p').take(l - 4));
+        for first in [0x30u8, 0x31] {
+            for n in 1..=4usize {
+                let mut p = vec![first];
+                p.extend(varint_padded(l as u32, n));
+                p.extend_from_slice(&body);
+                out.push(decode_case(&p));
+            }
+        }
+        // a user property that makes the block exactly l bytes long: 1 + 2 + 1 + 2 + (l - 6)
+        let mut block = vec![0x26u8, 0, 1, b'k'];
+        block.extend(((l - 6) as u16).to_be_bytes());
+        block.extend(std::iter::repeat(b'v').take(l - 6));
+        for n in 1..=4usize {
+            let mut b2 = lp(b"t");
+            b2.extend(varint_padded(l as u32, n));
+            b2.extend_from_slice(&block);
+            b2.extend_from_slice(b"xy");
+            out.push(decode_case(&packet(0x30, &b2)));
+        }
+    }
     out
 }
 
